@@ -3,7 +3,6 @@ package main
 import (
 	"fmt"
 	"math/big"
-	"path/filepath"
 
 	"wv/core"
 
@@ -12,10 +11,12 @@ import (
 
 func init() {
 	register("C07", core.Spec{
-		Decides: "one narrow clause of C07, the checksum/hash half only: the constant tables that the Wuffs CRC-32, CRC-64 and SHA-256 implementations are built on equal their mathematical definitions — IEEE_TABLE[k][i] is the slice-by-16 table of the reflected polynomial 0xEDB88320, ECMA_TABLE[k][i] the slice-by-8 table of 0xC96C5795D7870F42, SHA-256's K[i] the first 32 fractional bits of the cube roots of the first 64 primes and INITIAL_SHA256_H the first 32 fractional bits of the square roots of the first 8 primes (6720 entries, each recomputed by the checker from the definition and compared with the literal read through the Wuffs front end)",
-		NotDecided: "everything else in C07: that any decoder reproduces what a reference encoder compressed; that the hashers *use* the tables correctly; independence of the result from how the bytes are split across update calls; the SIMD folding constants of crc64; Adler-32 (it has no table). A flipped table entry makes the hash wrong for some inputs and no pinned test looks; that is all this check guards",
-		Assumptions: []string{"the Wuffs front end (lang/token, parse, check) computes ConstValue of literal list elements faithfully",
-			"the definitions of CRC-32/IEEE (reflected 0xEDB88320), CRC-64/ECMA-182 (reflected 0xC96C5795D7870F42) and FIPS 180-4 SHA-256 constants as implemented in this checker"},
+		Decides:    "the checksum/hash half of C07 only. (1) H.table: the constant tables that the Wuffs CRC-32, CRC-64 and SHA-256 implementations and the bzip2 decoder are built on equal their mathematical definitions — IEEE_TABLE[k][i] is the slice-by-16 table of the reflected polynomial 0xEDB88320, ECMA_TABLE[k][i] the slice-by-8 table of 0xC96C5795D7870F42, SHA-256's K[i] the first 32 fractional bits of the cube roots of the first 64 primes, INITIAL_SHA256_H the first 32 fractional bits of the square roots of the first 8 primes, bzip2's REV_CRC32_TABLE the MSB-first table of 0x04C11DB7 (6472 entries, each recomputed by the checker from the definition and compared with the literal read through the Wuffs front end). (2) H.compare / H.reset / H.update / H.mark / H.ignore.*: checksum *verification* inside the gzip, zlib, lzip, xz, png and bzip2 decoders, as a path-sensitive typestate analysis of the Wuffs ASTs of the functions listed in the table hRows (wv/c07_hash.go), under the standing assumption ignore_checksum == false: data fed to a hasher cannot reach a successful completion (or a reset) without the hasher's value having been compared with a value read from the stream, a mismatch returning \"#bad checksum\"; a trailer value read into the comparison's want-variable while data is hashed is compared on every path; every 64-bit word of a multi-word digest is compared; after a verified unit the hasher is reset before the next unit's first update (xz blocks, lzip members, png chunks, bzip2 blocks); every call that is handed the hashed stream is followed, before the next suspension / re-mark / comparison, by an update with exactly IO.since(mark: M), M = IO.mark() taken after the last suspension and update; the ignore flag is written only by set_quirk! under args.key == QUIRK_IGNORE_CHECKSUM with `args.value > 0`, is read only in if-conditions, code that runs only while it is false never advances a stream, and xz's ignoring branch skips exactly the CHECKSUM_LENGTH bytes the verifying branches read. (3) H.step.write / H.step.copy: in bzip2's flush_fast and flush_slow every byte written to the output went through the MSB-first CRC table step `L = T[((L >> 24) as u8) ^ V] ^ (L ~mod<< 8)` with the same byte expression, and the local accumulator is loaded from / stored back to the receiver field around the steps on every path",
+		NotDecided: "everything else in C07: that any decoder reproduces what a reference encoder compressed (value level; seeded C07-1 is of this kind); that the hashers *use* their tables correctly; independence of the result from how the bytes are split across update calls; the SIMD folding constants of crc64; Adler-32's arithmetic (it has no table); in bzip2's flush functions, that no CRC step happens without a write and the arithmetic of the step beyond its shape; png: the hand-over of the first IDAT chunk's CRC from do_decode_frame to decode_pass (inter-procedural), ancillary-chunk and fdAT/fcTL CRCs (skipped by design), the literal IEND CRC; whether the *right* bytes are between mark and update when a decoder rewrites its output in place (xz BCJ filters); anything when ignore_checksum is true",
+		Assumptions: []string{"the Wuffs front end (lang/token, parse, check) computes ConstValue of literal list elements faithfully and annotates expression types (MType) correctly",
+			"the definitions of CRC-32/IEEE (reflected 0xEDB88320), CRC-32/BZIP2 (0x04C11DB7 MSB first), CRC-64/ECMA-182 (reflected 0xC96C5795D7870F42) and FIPS 180-4 SHA-256 constants as implemented in this checker",
+			"typestate model: the hasher objects of std/crc32, crc64, sha256, adler32 start in their reset state; a receiver field keeps its value across a suspension of the coroutine (no other method of the decoder runs while it is suspended); a method call may write exactly the receiver fields it or its callees (choose-dispatched implementations included) assign",
+			"the per-row entry states and assumptions of hRows (one line of reason each) describe how the function is entered"},
 		Exhaustive: true,
 	}, runC07)
 }
@@ -89,12 +90,15 @@ func runC07(c *core.Ctx) {
 	if cb == nil {
 		return
 	}
+	std := loadStd(c, cb)
 	load := func(name string) *WPkg {
-		p, err := loadWuffsDir(name, filepath.Join(cb.Root, "std", name), cb.GenWuffs)
-		if err != nil {
-			c.Infra("tier W: %v", err)
+		for _, p := range std {
+			if p.Name == name {
+				return p
+			}
 		}
-		return p
+		c.Infra("tier W: std/%s not found in the scratch build", name)
+		return nil
 	}
 	findConst := func(p *WPkg, name string) *a.Const {
 		for _, k := range p.Consts {
@@ -199,5 +203,25 @@ func runC07(c *core.Ctx) {
 		checkTable(sha, "INITIAL_SHA256_H", 1, 8, func(_, i int) *big.Int { return new(big.Int).SetUint64(uint64(fracRoot(pr[i], 2))) },
 			"SHA-256 H0[i] = first 32 bits of the fractional part of the square root of the i-th prime (FIPS 180-4 §5.3.3)")
 	}
-	c.Floor("H", "table entries recomputed from their definitions", total, 16*256+8*256+64+8)
+	// CRC-32 as used by bzip2: MSB first, polynomial 0x04C11DB7.
+	{
+		var tab [256]uint32
+		for i := 0; i < 256; i++ {
+			x := uint32(i) << 24
+			for j := 0; j < 8; j++ {
+				if x&0x80000000 != 0 {
+					x = (x << 1) ^ 0x04C11DB7
+				} else {
+					x <<= 1
+				}
+			}
+			tab[i] = x
+		}
+		checkTable(load("bzip2"), "REV_CRC32_TABLE", 1, 256, func(_, i int) *big.Int { return new(big.Int).SetUint64(uint64(tab[i])) },
+			"REV_CRC32_TABLE is the byte table of CRC-32 computed MSB first (polynomial 0x04C11DB7), as bzip2 block and stream checksums use it")
+	}
+	c.Floor("H", "table entries recomputed from their definitions", total, 16*256+8*256+64+8+256)
+
+	// Checksum verification inside the decoders (rule family H over the Wuffs ASTs).
+	runHashRules(c, std)
 }
